@@ -408,4 +408,36 @@ CHECKS["C19"] = {
     "level_note": "Trusted: the reference unifier and documented-order predicate in harness/c19_resolve.cpp; operator_rank() is used only for the tie / uniqueness clause.",
 }
 
+CHECKS["C16"] = {
+    "title": "Push queue: accepted values are delivered once, in order, within capacity",
+    "level": "model_checking",
+    "technique": "stateless model checking of the real real-time executor + push source under a controlled thread scheduler and virtual clock "
+                 "(pthread mutex/condvar/clock symbols interposed, no source hooks): every interleaving at synchronisation operations up to a "
+                 "preemption bound (iterative context bounding with prefix replay), every complete execution checked against the send/deliver history",
+    "design_ref": "DESIGN.md 2/C16",
+    "parts": [{"name": "sched", "exe": "c16_push", "sources": ["c16_push.cpp"], "shards": 32, "pin": True}],
+    "rule": "threads: E = GraphExecutor::run() of a real-time graph (push source -> recording sink), producers P1/P2 running scripts of try_send / "
+            "send_blocking, optional stopper calling request_stop(). Exactly one thread runs at a time; every pthread_mutex_lock/trylock, "
+            "cond wait/signal/broadcast of the runtime and of libstdc++ is a scheduling point; a timed wait expires only by an explicit scheduler "
+            "choice that advances the virtual clock. Configurations: policy {queue, burst, conflating} x capacity {1, 2, unbounded} x 9 producer "
+            "scripts (1-2 producers, 1-4 sends) x {stopper, none}. Each complete execution is checked: no value twice; nothing delivered that was "
+            "refused or never sent; one value per cycle (burst: one tuple) at strictly increasing times; delivery order respects per-producer order "
+            "and returned-before-called order, and is a prefix of it; pending_items <= capacity at every cycle boundary and after every send; a "
+            "try_send refusal only if the queue can have been full or stop had begun; send_blocking fails only after stop began; nothing accepted "
+            "after the graph stopped; no deadlock / livelock; the loop never sleeps to a forced slice expiry with an accepted value pending (lost "
+            "wake-up); without stop or end-time expiry every accepted value is delivered (conflating: the latest). A failing schedule is replayed "
+            "from its recorded choice list and must fail identically. non-trivial = a schedule whose observable history differs from the default one.",
+    "bounds": {"quick": "preemption bound 2 (bound 1 for 4-send scripts); timers fire only when chosen", "thorough": "preemption bound 3"},
+    "min_counters": {"quick": {"nontrivial": 200, "sched.executions": 20000}},
+    "assumptions": COMMON_ASSUMPTIONS + [
+        "Sequentially consistent interleavings at synchronisation operations only: data races between unsynchronised accesses and weak-memory "
+        "effects of the two atomics (stop_requested) are outside the explored space.",
+        "Worker threads persist across executions (per-thread type caches are warm); a cold producer thread's first registry lookups are not interleaved.",
+    ],
+    "level_text": "Every schedule of the bounded thread programs with at most the stated number of preemptions is executed on the real code and "
+                  "checked; that is the CHESS-style coverage statement, not a sample.",
+    "level_note": "Trusted: harness/vsched.h (scheduler, virtual clock) and the history oracle in harness/c16_push.cpp. Determinism is re-checked on "
+                  "every run (the enumeration is executed twice for a failing case; replay divergence is a harness error).",
+}
+
 NOT_APPLICABLE = {}
